@@ -73,7 +73,8 @@ theorem root_prev_quorum (hfa : N.FramesAccepted) {r g : Nat} (hr : N.IsRoot r (
   by_cases hs : (N.h.ev r).seq ≤ 1
   · rw [if_pos hs] at this; omega
   · rw [if_neg hs] at this
-    exact this.2 g (by omega) (by omega)
+    exact Nat.le_trans (this.2 g (by omega) (by omega))
+      (N.weightOf_mono _ _ (fun _ _ ⟨p, a, b, c, _⟩ => ⟨p, a, b, c, trivial⟩))
 
 theorem voteYes_succ (f k r v : Nat) (hk : 1 ≤ k) :
     N.voteYes f (k + 1) r v ↔
